@@ -1,7 +1,7 @@
 (* C08Theorems.v — the property theorems of C08 and nothing else.  Each is closed by
    `exact <lemma>` and followed by Print Assumptions (audited by ./check on every run). *)
 From V.lib Require Import Base.
-From V.c08 Require Import C08Model C08Spec C08ReadProofs C08HeaderProofs C08CopyProofs.
+From V.c08 Require Import C08Model C08Spec C08ReadProofs C08HeaderProofs C08CopyProofs C08TreeProofs.
 
 (* ReadData / CopyData (repaired text, `end > dataLen`): for every file, every mdat box lying in it
    (8- or 16-byte header), every range that starts at a payload byte and ends at or before the end of
@@ -132,3 +132,29 @@ Theorem C08_zero_size_at_eof_refuted :
     = Ok (expected_samples file tb chunks a b).
 Proof. exact zero_size_at_eof_refuted. Qed.
 Print Assumptions C08_zero_size_at_eof_refuted.
+
+(* DecodeFile's top-level walk (DecodeBox vs DecodeBoxLazyMdat, boxStartPos += Size()): for every file that
+   is exactly a sequence of boxes (any 4-byte types, 8- or 16-byte headers, any number of mdat boxes anywhere
+   - before or after moov -, boxes other than mdat opaque), both modes succeed and produce the expected
+   views: the same type, StartPos and Size for every top-level box and the same LargeSize for every mdat;
+   the mdat boxes are exactly the mdat_mem / mdat_lazy boxes of the other theorems. *)
+Theorem C08_tree_equal :
+  forall file zeof bs orc1 orc2,
+  lenN file < 9223372036854775808 ->
+  layout_at file 0 bs = true ->
+  exists t1 t2,
+    decode_file_top (S (length bs)) false file zeof 0 (mkRS 0 orc1) = Ok t1
+    /\ decode_file_top (S (length bs)) true file zeof 0 (mkRS 0 orc2) = Ok t2
+    /\ t1 = views false file 0 bs /\ t2 = views true file 0 bs
+    /\ map erase t1 = map erase t2.
+Proof. exact tree_equal. Qed.
+Print Assumptions C08_tree_equal.
+
+(* satisfiable: free(8) mdat(large, 2 payload bytes) moov(9) *)
+Example C08_tree_equal_hyps :
+  let file := [0;0;0;8;102;114;101;101; 0;0;0;1;109;100;97;116;0;0;0;0;0;0;0;18;1;2; 0;0;0;9;109;111;111;118;7] in
+  let bs := [mkBD [102;114;101;101] false 0; mkBD name_mdat true 2; mkBD [109;111;111;118] false 1] in
+  layout_at file 0 bs = true /\
+  map erase (views true file 0 bs)
+  = [([102;114;101;101], 0, 8, false); (name_mdat, 8, 18, true); ([109;111;111;118], 26, 9, false)].
+Proof. vm_compute. repeat split; reflexivity. Qed.
